@@ -87,9 +87,9 @@ Definition homogeneous (s : setb) : bool :=
 Definition prepared (s : setb) : bool :=
   match s_type s with STemplate => N.eqb (hdr_id s) 2 | _ => true end.
 Definition elem_typed (e : ie) (v : value) : bool :=
-  rfc_width_ok e && negb (N.eqb (ie_len e) 0) &&
+  rfc_width_ok e &&
   match ie_dt e, v with
-  | OctetArray, VOct _ => true
+  | OctetArray, VOct o => negb (N.eqb (ie_len e) 0) || Nat.eqb (List.length (obytes o)) 0
   | Unsigned8, VU8 n => n <? 2 ^ 8
   | Unsigned16, VU16 n => n <? 2 ^ 16
   | Unsigned32, VU32 n => n <? 2 ^ 32
